@@ -9,19 +9,21 @@
 (*   "fail"       every DWR is answered with a failing Result-Code         *)
 (*   "none"       no DWR is answered                                       *)
 (*   "dup"        every DWR is answered with two success DWAs              *)
+(*   "multi_stop" the first n rounds are answered with j success DWAs per  *)
+(*                DWR (duplicates pile up), then silence                   *)
 (* sync = TRUE: the answer is delivered and handled before the transport   *)
 (* write of the DWR returns (the peer answered every DWR all the same).    *)
 (* A round = the copies of one DWR (same hop-by-hop id).                   *)
 (***************************************************************************)
 EXTENDS Integers, Sequences, TLC
 
-Closes(s) == s.kind \in {"stop_after", "fail", "none"}
+Closes(s) == s.kind \in {"stop_after", "multi_stop", "fail", "none"}
 \* copies expected in round r (1-based)
 Copies(s, r) == CASE s.kind \in {"all", "dup"} -> 1
                   [] s.kind = "only_retx" -> s.j
-                  [] s.kind = "stop_after" -> IF r <= s.n THEN 1 ELSE s.budget + 1
+                  [] s.kind \in {"stop_after", "multi_stop"} -> IF r <= s.n THEN 1 ELSE s.budget + 1
                   [] OTHER -> s.budget + 1
-NRounds(s) == CASE s.kind = "stop_after" -> s.n + 1 [] s.kind \in {"fail", "none"} -> 1 [] OTHER -> s.rounds
+NRounds(s) == CASE s.kind \in {"stop_after", "multi_stop"} -> s.n + 1 [] s.kind \in {"fail", "none"} -> 1 [] OTHER -> s.rounds
 
 Reasons(s, o) ==
      (IF Len(o.rounds) # NRounds(s) THEN <<"round-count">> ELSE <<>>)
